@@ -14,8 +14,13 @@ Line-protocol driver for C09. Ops (see harness/cmd/c09/main.go for the Go side):
   bu|buc <hex>           UnMarshalBlock            -> err | panic | ok <header|nilhdr> <n> <tx>*
   gm <group>             MarshalGroup              -> <hex> <genhash of header>
   gu <hex>               UnMarshalGroup            -> err | panic | ok <group> <genhash of header>
+  Gu <hex>               proto.Unmarshal(GroupSlice); PbToGroups -> err | panic | ok <n> <group>*
+  mm <id> <pubkey>       MarshalMember             -> err | <hex>
+  mu <hex>               UnMarshalMember           -> err | ok <id> <pubkey>
   jt <time>              json.Marshal(time)        -> err | <hex>
   jr <hex>               RequestIds JSON decode    -> <reqids>
+  jq <hex>               json.Marshal(string)      -> <hex>
+  ju <hex>               json.Unmarshal into a string (input starts with a quote) -> err | ok <hex>
 
 `tuc`/`suc`/`buc`: the bytes were produced by the implementation's own Marshal, so the
 SubTransactions JSON is canonical; on `tu`/`su`/`bu` a non-trivial SubTransactions field is
@@ -82,7 +87,8 @@ def pReqIds (s : String) : Option ReqIds :=
   if s == "n" then some .nil
   else do
     let kvs ← pList pKV s
-    some (.map (kvs.foldl (fun acc kv => insertKV kv.1 kv.2 acc) []))
+    let m := kvs.foldl (fun acc kv => insertKV kv.1 kv.2 acc) []
+    if m.all (fun kv => kv.1.all safeKeyByte) then some (.map m) else some (.mapEsc m)
 
 def pHeader : List String → Option (Header × List String)
   | hash :: height :: preHash :: preTime :: pv :: qn :: curTime :: castor :: gid :: sig :: nonce :: rids ::
@@ -151,6 +157,7 @@ def sOptList {α : Type} (f : α → String) : Option (List α) → String
 def sReqIds : ReqIds → String
   | .nil => "n"
   | .map kvs => sList (fun kv => toHex kv.1 ++ "=" ++ toString kv.2) kvs
+  | .mapEsc kvs => sList (fun kv => toHex kv.1 ++ "=" ++ toString kv.2) kvs
   | .opaque _ => "o"
 
 def sHeader (h : Header) : String :=
@@ -182,6 +189,7 @@ def sGroup (g : Group) : String :=
 def keysSafe : ReqIds → Bool
   | .nil => true
   | .map kvs => kvs.all (fun kv => kv.1.all safeKeyByte)
+  | .mapEsc _ => true
   | .opaque _ => false
 
 def headerModelled (h : Header) : Bool := keysSafe h.requestIds
@@ -189,7 +197,7 @@ def headerModelled (h : Header) : Bool := keysSafe h.requestIds
 def subTxTrivial (p : PbTx) : Bool :=
   match p.subTransactions with
   | none => true
-  | some raw => raw = [] || raw = jsonNull || raw = [91, 93]
+  | some raw => raw = [] || raw = jsonNull || (parseSubTx raw).isSome
 
 def showOutcome {α : Type} (f : α → String) : Outcome α → String
   | .ok a => "ok " ++ f a
@@ -243,6 +251,15 @@ def step (_ : Unit) (line : String) : Unit × String :=
                 | .panic _ => "panic")
             | _ => "bad-op")
        | _ => "bad-op")
+    | ["mm", a, b] =>
+      (match pOptBytes a, pOptBytes b with
+       | some i, some k =>
+         (match marshalMember ⟨i, k⟩ with
+          | .ok bs => toHex bs
+          | .err => "err"
+          | .nilObj => "nil"
+          | .panic _ => "panic")
+       | _, _ => "bad-op")
     | "gm" :: ws =>
       (match pGroup ws with
        | some (g, []) => toHex (marshalGroup g) ++ " " ++ toHex (groupHeaderGenHash g.header)
@@ -261,28 +278,41 @@ def step (_ : Unit) (line : String) : Unit × String :=
            (match decTx bs with
             | none => "err"
             | some p =>
-              if op == "tu" && !subTxTrivial p then "unmodelled"
+              if !subTxTrivial p then "unmodelled"
               else showOutcome (fun t => sTx t ++ " " ++ toHex (txGenHash t)) (pbToTx p))
          else if op == "su" || op == "suc" then
            (match decTxSlice bs with
             | none => "err"
             | some ps =>
-              if op == "su" && !ps.all subTxTrivial then "unmodelled"
+              if !ps.all subTxTrivial then "unmodelled"
               else showOutcome sTxs (pbToTxs ps))
          else if op == "bu" || op == "buc" then
            (match decBlock bs with
             | none => "err"
             | some p =>
-              if op == "bu" && !p.transactions.all subTxTrivial then "unmodelled"
+              if !p.transactions.all subTxTrivial then "unmodelled"
               else match unmarshalBlock bs with
                 | .ok b =>
                   (match b.header with
                    | none => "ok nilhdr " ++ sTxs b.txs
                    | some h => if headerModelled h then "ok " ++ sHeader h ++ " " ++ sTxs b.txs else "unmodelled")
                 | o => showOutcome (fun _ => "") o)
+         else if op == "mu" then
+           showOutcome (fun m => sOptBytes m.id ++ " " ++ sOptBytes m.pubKey) (unmarshalMember bs)
+         else if op == "Gu" then
+           showOutcome (fun gs => match gs with
+             | [] => "0"
+             | _ => toString gs.length ++ " " ++ " ".intercalate (gs.map sGroup)) (unmarshalGroups bs)
          else if op == "gu" then
            showOutcome (fun g => sGroup g ++ " " ++ toHex (groupHeaderGenHash g.header)) (unmarshalGroup bs)
          else if op == "jr" then sReqIds (decReqIds bs)
+         else if op == "jq" then toHex (jsonQuote bs)
+         else if op == "ju" then
+           (match bs with
+            | 34 :: r => (match unquoteStr (r.length + 1) r with
+              | some (s, []) => "ok " ++ toHex s
+              | _ => "err")
+            | _ => "err")
          else "bad-op")
     | _ => "bad-op"
   ((), ans)
